@@ -1,6 +1,6 @@
 """C13 - decisions depend on uncertainty exactly as declared."""
 from harness import core
-from checks import suite_partition, suite_partition_trace
+from checks import suite_partition, suite_partition_trace, suite_declorder
 
 
 def main(tier):
@@ -13,6 +13,8 @@ def main(tier):
                        'concretisation in harness/replay_partition.py (pinned supports z = Zhat[s], box supports for masks)']
     suite_partition.run(rep, tier, props=('C13',))
     suite_partition_trace.run(rep, tier, props=('C13',))       # code -> spec: recorded traces validated by TLC
+    # ro decision rules: the declared dependency pattern under every order of declaring random variables, adaptations and uses
+    suite_declorder.run(rep, tier, props=('C13',))
     return rep.finish()
 
 
